@@ -7,7 +7,7 @@ CONSTANTS
   EmptyTxInvalid = TRUE
   AdminBoundsChecked = TRUE
   TxSet <- TxL
-  MaxTxs = 2
+  MaxTxs = 3
   MaxH = 3
 VIEW view
 CONSTRAINT Bound
